@@ -80,6 +80,23 @@ func (n *Property) Inject(metas []*Meta) error {
 		return nil
 	}
 
+	//check assignability before touching the field
+	var targetType = n.Type
+	var candidates = metas
+	if n.Type.Kind() == reflect.Slice || n.Type.Kind() == reflect.Array {
+		targetType = n.Type.Elem()
+	} else {
+		candidates = metas[:1]
+	}
+	for _, m := range candidates {
+		if !m.Value.Type().AssignableTo(targetType) {
+			if isRequired {
+				return errors.Errorf("inject '%s': component '%s' of type %s is not assignable to %s", n, m.Name(), m.Value.Type(), targetType)
+			}
+			return nil
+		}
+	}
+
 	switch n.Type.Kind() {
 	case reflect.Slice, reflect.Array:
 		n.Value.Set(reflect.MakeSlice(n.Type, len(metas), len(metas)))
